@@ -341,7 +341,7 @@ func (C19) Generate(c *Ctx, r *Rand, index int) *Scenario {
 		sc.Meta["keep_flags"] = []any{"ea"}
 	case "malformed":
 		// a record that an independent reader of the format rejects, at some position of some file
-		format = Pick(rs, []string{"csv", "tsv", "json", "toml", "lua", "xml", "xml", "base64", "uri"})
+		format = Pick(rs, []string{"csv", "tsv", "json", "toml", "lua", "xml", "xml", "base64", "uri", "props"})
 		nf := rs.Range(1, 3)
 		bad := rs.Intn(nf)
 		ext := FormatByName(format).Ext
@@ -502,6 +502,7 @@ func (C19) Generate(c *Ctx, r *Rand, index int) *Scenario {
 			{"-o=csv", "[{\"k\": 1}, {\"k\": {\"n\": 2}}]"}, {"-o=csv", "[{\"k\": 1}, {\"k\": [1]}]"}, {"-o=tsv", "[{\"k\": 1}, {\"k\": {\"n\": 2}}]"}, {"-o=csv", "[[1], [{\"a\": 1}]]"}, {"-o=csv", ".e + [{\"k\": .c}]"},
 			{"-o=csv", "[[1, 2], [3, [4]]]"}, {"-o=xml", "[1, 2]"}, {"-o=base64", ".c"}, {"-o=uri", ".c"},
 			{"-o=toml", "."}, {"-o=toml", ".d"}, {"-o=toml", ".c"}, {"-o=base64", "."}, {"-o=base64", ".d"}, {"-o=base64", ".a"}, {"-o=uri", "."}, {"-o=uri", ".d"},
+			{"-o=xml", "{\"+directive\": \"DOCTYPE a <b\", \"r\": 1}"}, {"-o=xml", "{\"+p_xml\": \"version=\\\"1.0\\\" ?> x\", \"r\": 1}"}, {"-o=xml", "{\"r\": 1, \"+directive\": \"a > b <\"}"},
 			{"-o=xml", "{\"r\": {\"+@a\": [1, 2], \"b\": 1}}"}, {"-o=xml", "{\"r\": {\"+@a\": {\"n\": 1}}}"}, {"-o=xml", "{\"r\": {\"+@a\": .d}}"}, {"-o=xml", "{\"r\": {\"+@a\": .c, \"+content\": \"t\"}}"},
 		})
 		if rs.Chance(1, 5) {
@@ -517,6 +518,11 @@ func (C19) Generate(c *Ctx, r *Rand, index int) *Scenario {
 			sc.Files[0].Docs[0] += "bad: !!int 12abc\ninf: .inf\nfl: !!float xyz\ncx:\n  - ? [p, q]\n    : 1\n"
 			sc.Meta["freeze_data"] = true
 			combo = Pick(rs, [][2]string{{"-o=json", ".bad"}, {"-o=json", ".inf"}, {"-o=json", "."}, {"-o=json", "[.a, .bad]"}, {"-o=json", ".fl"}, {"-o=json", "{\"k\": .inf}"}, {"-o=csv", ".cx"}, {"-o=tsv", ".cx"}, {"-o=csv", ".cx"}})
+			if rs.Chance(1, 3) {
+				// a merge key whose alias is not a map cannot be exploded for an encoder without aliases
+				sc.Files[0].Docs[0] = "id: " + DocID(r, 0, 0) + "\nx: &x 1\ny:\n  <<: *x\n  k: v\n"
+				combo = Pick(rs, [][2]string{{"-o=json", "."}, {"-o=props", "."}, {"-o=json", ".y"}, {"-o=xml", "."}, {"-o=lua", "."}, {"-o=shell", "."}})
+			}
 		}
 		evalAll = rs.Chance(1, 4)
 		if evalAll {
